@@ -192,6 +192,11 @@ func (t *sseClientTransport) start(ctx context.Context) error {
 	resp, err := t.httpReqHandler.Handle(sseCtx, t.httpClient, req)
 	close(connected)
 	if err != nil {
+		if ctxErr := ctx.Err(); ctxErr != nil {
+			// The caller's context ended while connecting: say so (the request itself was
+			// aborted through sseCtx and only knows "canceled").
+			return fmt.Errorf("%w: %w", ErrHTTPRequestFailed, ctxErr)
+		}
 		return fmt.Errorf("%w: %v", ErrHTTPRequestFailed, err)
 	}
 
